@@ -16,13 +16,14 @@ LEVEL_TEXT = ('static analysis: (D1) export_bed interpreted on one segment per c
               '2^log2) without a cn column); (D2) segments2vcf -- a generator building f-strings -- interpreted over the same classes, with start'
               ' 0 and a symbolic start: a record is emitted <=> cn != expected; ALT / SVTYPE DEL <=> below, DUP <=> above; POS = start with 0 -> '
               '1; END = end; SVLEN = end - start for DUP and -(end - start) for DEL (of the real start, not POS); FORMAT GT:GQ:CN:CNQ with CN = '
-              'cn for gains, GT:GQ for losses; (D3) SEG: format_seg renames start+1 -> loc.start, end -> loc.end, probes -> num.mark, log2 -> '
-              'seg.mean under ID = the sample id, and export_seg -> write_seg, interpreted for 1-3 files with an empty table in any position, '
-              "lists every file's rows under that file's own sample id in file order, probe counts kept for every table that has them; (D4) "
-              'merge_samples raises on a different number of bins, differing chromosome:start-end:gene labels or a duplicate sample id before '
-              "adding a sample's column; jtv / cdt rows are the label plus one column per sample; (D5) the sex / PAR / ploidy flags reach same-"
-              'role parameters from the export commands down to the calling functions. Does not decide the text layout of INFO beyond the named '
-              'fields.')
+              'cn for gains, GT:GQ for losses; a row with a non-numeric probe count gives no record and shifts nothing; (D3) SEG: format_seg '
+              'renames start+1 -> loc.start, end -> loc.end, probes -> num.mark, log2 -> seg.mean under ID = the sample id, and export_seg -> '
+              "write_seg, interpreted for 1-3 files with an empty table in any position, lists every file's rows under that file's own sample id "
+              'in file order, probe counts kept for every table that has them; (D4) merge_samples interpreted on literal tables: one log2 column '
+              'per sample id over identical bins; a different number of bins, differing chromosome:start-end:gene labels (also permuted) or a '
+              "duplicate sample id raise; fmt_jtv / fmt_cdt rows are the label plus every sample's value; (D6) the stated sample sex reaches the "
+              'export through verify_sample_sex (C15 rule); (D5) the sex / PAR / ploidy flags reach same-role parameters from the export commands'
+              ' down to the calling functions. Does not decide the text layout of INFO beyond the named fields.')
 TECHNIQUE = "abstract interpretation of the export functions (row classes x flags, f-string fields with holes); dominance; role-flow"
 
 EXP = "cnvlib.export"
